@@ -91,6 +91,8 @@ impl<F: FixedChannelRegion> FixedChannelPlan<F> {
 pub(crate) trait FixedChannelRegion: ChannelRegion {
     /// Data rate used for join requests on the 500 kHz channels (64 to 71)
     const JOIN_DR_500KHZ: DR;
+    /// Highest datarate that may be used for uplinks
+    const MAX_UPLINK_DR: DR;
     fn uplink_channels() -> &'static [u32; 72];
     fn downlink_channels() -> &'static [u32; 8];
     fn get_rx_datarate(tx_dr: DR, rx1_dr_offset: u8, window: &Window) -> DR;
@@ -179,6 +181,11 @@ impl<F: FixedChannelRegion> RegionHandler for FixedChannelPlan<F> {
     fn get_datarate(&self, dr: u8) -> Option<&Datarate> {
         // DR15 is a valid 4-bit wire value (eg: JoinAccept DLSettings) but not a table entry
         F::datarates().get(dr as usize)?.as_ref()
+    }
+
+    fn uplink_datarate_valid(&self, dr: u8) -> bool {
+        // The datarates above MAX_UPLINK_DR are used by downlinks only
+        dr <= F::MAX_UPLINK_DR as u8 && self.get_datarate(dr).is_some()
     }
 
     fn select_tx_channel<RNG: RngCore>(
